@@ -69,12 +69,16 @@ Failing(h, e, fl) ==
              recvState |-> obs[recv] = h[recv],
              allowed   |-> IF e.kind = "err" THEN n = Len(h)
                            ELSE IF a.op \in CliQueryOps THEN mustErr \/ (newObs = <<>> /\ Allowed(h, a.op, recv, a.a, h[recv], <<>>, retq))
-                           ELSE mustErr \/ (Len(newObs) = 1 /\ ((a.op = "Compress" /\ ~a.full) \/
+                           ELSE mustErr \/ (Len(newObs) = 1 /\ ((a.op \in CliNeedsRet /\ ~a.full) \/
                                   IF a.op \in CliCreators THEN Allowed(h, a.op, recv, a.a, h[recv], newObs, e.ret)
                                   ELSE Allowed(h, a.op, recv, a.a, asPost, <<>>, e.ret))),
              frame |-> \A i \in 1..Len(h) : i <= n /\ obs[i] = h[i], views |-> views]
           ELSE LET R0 == Step(h, a.op, recv, a.a)
-                   R  == CliOf(a.op, h[recv], R0) IN
+                   \* `subseq --ref-seq`: the window the reference coordinates designate, then its extraction
+                   R  == IF a.op = "RefCoordinates"
+                         THEN (IF R0.err THEN R0
+                               ELSE CliOf("SubAlign", h[recv], Step(h, "SubAlign", recv, [start |-> R0.ret.start, len |-> R0.ret.len])))
+                         ELSE CliOf(a.op, h[recv], R0) IN
           [errClass  |-> (e.kind = "err") = R.err,
            recvState |-> obs[recv] = h[recv],
            created   |-> IF R.err \/ e.kind = "err" THEN n = Len(h) ELSE (~R.j) \/ newObs = R.new,
